@@ -177,6 +177,8 @@ def _guard_table(prog, an, rep, f, kind):
         got = _explore(an, f, c, start, env, {h.id for h in hcalls})
         is_none = env[atoms[0]]
         is_inst = env[atoms[1]]
+        if is_none and is_inst:
+            continue        # None is not an instance of anything
         if is_none:
             want = {('raise', exc['none'])}
         elif not is_inst:
